@@ -250,8 +250,20 @@ def main():
             # the implementation no longer builds with the harness: not a property verdict
             die("cargo build of the harness against /repo failed:\n" + log)
 
+    replay_id = None
     if replay:
-        batches = [{"bin": cfg["replay_bin"], "args": ["replay", replay], "name": "replay"}]
+        # a replay file names the generator batch that produced the case and the case id: the batch
+        # is re-run against the current /repo (same seed) and that case is judged again
+        txt = open(replay).read()
+        m = re.search(r"^# rerun: (\{.*\}) case_id=(\S*)", txt, re.M)
+        ms = re.search(r"^# seed=(\d+)", txt, re.M)
+        if not m:
+            die("replay file %s names no generator batch (a proof/correspondence report is not replayable: re-run the check)" % replay)
+        b = json.loads(m.group(1))
+        replay_id = m.group(2)
+        if ms:
+            seed = int(ms.group(1))
+        batches = [{"bin": b["bin"], "args": b["args"], "name": "replay " + " ".join(b["args"])}]
     else:
         batches = cfg["batches"](tier)
     col = cfg.get("oracle_col", pid)
@@ -291,7 +303,10 @@ def main():
         for b in batches:
             rows, secs = run_batch(pid, b, seed, tier)
             batch_info.append({"name": b.get("name", " ".join(map(str, b["args"]))), "cases": len(rows), "wall_s": round(secs, 2)})
+            if replay_id is not None:
+                rows = [(c, r) for c, r in rows if r.get("id") == replay_id]
             for case_line, r in rows:
+                r["_batch"] = json.dumps({"bin": b["bin"], "args": [str(a) for a in b["args"]]})
                 total += 1
                 if r.get("skip") == "1":
                     skipped += 1
@@ -327,8 +342,9 @@ def main():
     def write_replay(name, case_line, r, why):
         path = os.path.join(BUILD, "replay", name)
         with open(path, "w") as f:
-            f.write("# property %s — %s\n# driver verdict: %s\n" % (pid, why, " ".join("%s=%s" % kv for kv in r.items() if kv[0] not in ("tags", "_oracle"))))
+            f.write("# property %s — %s\n# driver verdict: %s\n" % (pid, why, " ".join("%s=%s" % kv for kv in r.items() if kv[0] not in ("tags", "_oracle", "_batch"))))
             f.write("# tags: %s\n# seed=%d tier=%s\n" % (r.get("tags", ""), seed, tier))
+            f.write("# rerun: %s case_id=%s\n" % (r.get("_batch", "{}"), r.get("id", "")))
             f.write(case_line + "\n")
         return os.path.relpath(path, ROOT)
 
